@@ -993,10 +993,11 @@ ConcurrentTransientHashSet<T, H, E>::begin() noexcept {
   }
   while (ABSL_PREDICT_FALSE(node != nullptr)) {
     iter = node->table.begin();
+    auto next = node->next.load(::std::memory_order_acquire);
     if (iter != node->table.end()) {
-      return {nullptr, iter};
+      return {next, iter};
     }
-    node = _head.next.load(::std::memory_order_acquire);
+    node = next;
   }
   return {};
 }
